@@ -1,6 +1,7 @@
 package main
 
 import (
+	"strings"
 	"crypto"
 	"crypto/rand"
 	"crypto/rsa"
@@ -320,7 +321,12 @@ func allAdapters(seed int64) []adapter {
 			call: func(b []byte) bool { var p tkn20.Policy; return p.ExtractFromCiphertext(b) == nil }})
 		add(adapter{name: "tkn20.Policy.FromString", covers: []string{"abe/cpabe/tkn20|*Policy|FromString"}, cost: 1,
 			valid: [][]byte{[]byte("(country: NL and (tier: 1 or not region: US)) or admin: yes"), []byte("a:b"), []byte("not (a:b and c:d)")},
-			call:  func(b []byte) bool { var p tkn20.Policy; return p.FromString(string(b)) == nil }})
+			call:  deepCalls["tkn20.Policy.FromString"],
+			deep: []func(n int) []byte{
+				func(n int) []byte { return []byte(strings.Repeat("(", n) + "a:b" + strings.Repeat(")", n)) },
+				func(n int) []byte { return []byte(strings.Repeat("not ", n) + "a:b") },
+				func(n int) []byte { return []byte(strings.Repeat("(not ", n) + "a:b" + strings.Repeat(")", n)) },
+			}})
 	}
 
 	// ------------------------------------------------------------------ BLS, BLS12-381 points and field elements
@@ -502,4 +508,9 @@ func allAdapters(seed int64) []adapter {
 	}
 	_ = sign.SignatureOpts{}
 	return ads
+}
+
+// deepCalls: the entry points that get deeply nested inputs, callable without building every adapter's valid encodings (child processes)
+var deepCalls = map[string]func(b []byte) bool{
+	"tkn20.Policy.FromString": func(b []byte) bool { var p tkn20.Policy; return p.FromString(string(b)) == nil },
 }
